@@ -193,6 +193,15 @@ def run(tier):
             for mode in ("none", "zod"):
                 jobs.append((cli, "mapped/%s/%s" % (site, plabel), site_project(site, t), mode,
                              {"site": site, "position": plabel, "kind": "mapped", "type": t, "config": {"type_mappings": {"Timestamp": "number"}}}))
+    # types that are not in the documented table but name no type of their own either (fixed-size arrays, slices): whatever the
+    # tool prints for them must still resolve — the precondition (every NAMED type is defined or mapped) holds
+    for text in ("[u8; 32]", "[f32; 3]", "[[f32; 4]; 4]", "Vec<[u8; 16]>", "Option<[i32; 2]>", "&'static [u8]", "HashMap<String, [u8; 4]>", "([u8; 2], String)",
+                 "[Foo; 2]", "Vec<[Kind; 3]>", "[Option<Foo>; 2]", "[u8; N]", "[u8; 2 * 16]"):
+        for site in SITES:
+            for mode in ("none", "zod"):
+                ttext = text if site != "param" else text.replace("&'static ", "&")
+                jobs.append((cli, "array-or-slice/%s/%s" % (site, text), site_project(site, ("raw", ttext)), mode,
+                             {"site": site, "position": "array-or-slice", "kind": "array", "type": None}))
     for (label, files) in event_projects():
         for mode in ("none", "zod"):
             jobs.append((cli, label, files, mode, {"site": "events", "position": label, "kind": "-", "type": None}))
